@@ -931,16 +931,34 @@ def regroup_same_apis(ctx, g, s):
 # C01 — is_match decides membership
 
 
+def backref_search_groups(ctx, n):
+    """back-reference patterns searched unanchored on inputs where an earlier start position captures and fails"""
+    r = ctx.rnd
+    gs = []
+    pats = sorted({props2.c19_patterns(ctx) for _ in range(400)})
+    inputs = [s for s in rxlib.strings_upto("abc", 5) if len(s) >= 2]
+    for p in pats:
+        ast = props2.parse_simple(p) if "[" not in p and "." not in p and "^" not in p else None
+        if ast is None:
+            continue
+        fe = features(ast)
+        for s in (inputs if n >= 1000 else r.sample(inputs, 120)) + ["xabc", "aabc", "xadxbc"]:
+            gs.append(Group([Case(p, "", "is_match", s)], {"features": fe, "input": s, "ast": ast, "flags": "", "kind": "backref-search"}))
+    return gs
+
+
 def c01_streams(ctx):
     if ctx.quick():
         gs = random_groups(ctx, 4000, [("is_match", "")])
         gs += stress_groups(ctx, 2500, [("is_match", "")])
         gs += prefix_groups(ctx, 150, [("is_match", "")]) + line_groups(ctx, 120, [("is_match", "")])
+        gs += backref_search_groups(ctx, 160)
         gs += small_groups(ctx, 3, 4, [""], [("is_match", "")])
     else:
         gs = random_groups(ctx, 60000, [("is_match", "")])
         gs += stress_groups(ctx, 40000, [("is_match", "")])
         gs += prefix_groups(ctx, 2500, [("is_match", "")]) + line_groups(ctx, 2000, [("is_match", "")])
+        gs += backref_search_groups(ctx, 2500)
         gs += small_groups(ctx, 4, 5, ["", "m"], [("is_match", "")])
         ctx.exhaustive = True
     return gs
@@ -1109,7 +1127,10 @@ def c03_streams(ctx):
 
 
 C03_SHAPES = ["(?:(a)|(b))+", "(?:(a+)|(b+))+", "(?:(a+)|(b+)|(c))*c", "((a)|(b))+", "(?:(a)(b)?)+", "(a)|(b)|(c)", "(?:(a)|b)+(b)?", "((a+)(b*))+",
-              "(a(b(c)?)?)+", "(?:(ab)|(a)|(b))+", "(?:(\\d+)|([a-z]+))+", "(?:(a)|(b)|(ab))+?c", "(a)?(b)?(c)?x", "((a)|(b)|(c))*x", "(?:(a)b|a(c))+"]
+              "(a(b(c)?)?)+", "(?:(ab)|(a)|(b))+", "(?:(\\d+)|([a-z]+))+", "(?:(a)|(b)|(ab))+?c", "(a)?(b)?(c)?x", "((a)|(b)|(c))*x", "(?:(a)b|a(c))+",
+              # a capturing group whose nearest enclosing parenthesis is non-capturing, inside a capturing group, matching empty
+              # where the outer group ends (the nesting table is computed by a separate scanner)
+              "(a(?:(b?)))", "(a(?:x(b?))?)", "(a(?:b(c*))+)", "((a)(?:(b?)))", "(a(?:(?:(b?))))x", "(a+(?:b(c?))?)(x?)"]
 
 
 def c03_shape_groups(ctx):
@@ -1359,9 +1380,13 @@ def shortcut_pattern(ctx, f=""):
     elif k < 0.45:
         p = "^" + p                                           # start anchor
     elif k < 0.7:
-        x = r.choice(["a", "b", "[ab]", "\\w", ".", "\\n", "\\s", "\\d", "x", "z", "é", "[x-z]", "\\p{Ll}", "\\p{Lu}", "[\\p{Ll}1]"])
+        x = r.choice(["a", "b", "[ab]", "\\w", ".", "\\n", "\\s", "\\d", "x", "z", "é", "[x-z]", "\\p{Ll}", "\\p{Lu}", "[\\p{Ll}1]",
+                      "(?:a{2})", "(?:[ab]{2})", "(?:(?:ab){2})", "(?:a{3})"])
         q = r.choice(["*", "+", "?", "{2}", "{1,3}", "*?", "+?", "{0,2}?"])
         y = r.choice(["a", "b", "[ab]", "c", "\\n", "$", "^", "\\w", "(?:a|b)", "b*", "(b)", "1", ".", "[^0-9]", "\\S", "x", "[^a]", "A", "B", "Ab", "[A-B]", "$\\nb", "^a"])
+        if len(x) == 1 and x.isalpha() and r.random() < 0.15:
+            # a choice whose branch is a multi-term sequence starting with the repeated character
+            y = r.choice(["(?:%s[bc]|d)", "(?:d|%s(b))", "(?:%sb|%sc|d)", "(?:%s$|b)"]).replace("%s", x)
         if r.random() < 0.3:
             # a nullable term between the repeat and something that starts like the repeated term
             y = r.choice(["(?:b|)X", "(?:(?:bc|d)*|c)X", "(?:c?|d)X", "(b*|c)X", "(?:b|c*)X", "(?:^|c)X", "(?:c|$)X", "(c)?X", "(?:c{0,2}|d)X"]).replace("X", x)
